@@ -176,6 +176,18 @@ def check_reaction(ctx, r, kind, tag):
             p = graphs_equal(orig, dec)
             if p:
                 ctx.violation("decompose", {**wit, "ignore_aromaticity": flag}, f"its_decompose (ITS built with ignore_aromaticity={flag}) does not return the original {name} graph: {p}")
+    # the public writer applied to the caller's own graphs: same answer as through the ITS, and the graphs stay as they were
+    from synkit.IO.chem_converter import graph_to_rsmi
+    dG, dH = WG.gdigest(G), WG.gdigest(H)
+    try:
+        direct = graph_to_rsmi(G, H)
+    except Exception as e:
+        direct = f"{type(e).__name__}"
+    ctx.count("graph_to_rsmi_on_caller_graphs")
+    if WG.gdigest(G) != dG or WG.gdigest(H) != dH:
+        ctx.violation("input-mutated", {**wit, "call": "graph_to_rsmi(G, H)"},
+                      "graph_to_rsmi modified the reactant/product graphs it was given (a second use of the same graphs sees different molecules)")
+        G, H = rsmi_to_graph(r)
     its2 = rsmi_to_its(r)
     if WG.gdigest(its2) != WG.gdigest(its):
         # same function of the same input through the documented route
